@@ -26,6 +26,29 @@ import (
 	"github.com/avfs/avfs"
 )
 
+// absPath returns the absolute path of path used as the key of the nodes map :
+// the root directory of a volume is indexed by its volume name (an empty string if there is no volume).
+func (vfs *OrefaFS) absPath(path string) string {
+	absPath, _ := vfs.Abs(path)
+
+	vl := avfs.VolumeNameLen(vfs, absPath)
+	if len(absPath) == vl+1 && vfs.IsPathSeparator(absPath[vl]) {
+		return absPath[:vl]
+	}
+
+	return absPath
+}
+
+// splitAbs is avfs.SplitAbs for the keys of the nodes map :
+// the root directory has no parent directory and its name is the path separator.
+func (vfs *OrefaFS) splitAbs(absPath string) (dir, file string) {
+	if len(absPath) == avfs.VolumeNameLen(vfs, absPath) {
+		return absPath, string(vfs.PathSeparator())
+	}
+
+	return avfs.SplitAbs(vfs, absPath)
+}
+
 // addChild adds a child to a node.
 func (nd *node) addChild(name string, child *node) {
 	if nd.children == nil {
